@@ -6,6 +6,7 @@ import (
 	"go/types"
 	"os"
 	"path/filepath"
+	"sort"
 	"strings"
 	"sync"
 
@@ -19,6 +20,8 @@ const RepoModule = "go.etcd.io/raft/v3"
 // Program is the shared, read-only SSA form of /repo plus harness overlays.
 type Program struct {
 	Prog     *ssa.Program
+	// harness files that no longer compile against the tree (with the first error of each)
+	DroppedHarnessFiles []string
 	Fset     *token.FileSet
 	Pkgs     map[string]*ssa.Package // by import path
 	RepoDir  string
@@ -90,29 +93,61 @@ func Load(repoDir string, harnessDir string, rtTemplate string) (*Program, error
 			overlay[filepath.Join(repoDir, rsub, "zz_vp_rt.go")] = []byte(src)
 		}
 	}
-	cfg := &packages.Config{
-		Mode:       packages.LoadAllSyntax,
-		Dir:        repoDir,
-		Overlay:    overlay,
-		BuildFlags: []string{"-tags=verif"},
-		Env:        append(os.Environ(), "GOFLAGS=-mod=mod", "GOPROXY=off", "GOSUMDB=off", "GOTOOLCHAIN=local"),
-	}
-	pkgs, err := packages.Load(cfg, RepoModule, RepoModule+"/quorum", RepoModule+"/tracker", RepoModule+"/confchange", RepoModule+"/raftpb")
-	if err != nil {
-		return nil, err
-	}
-	var errs []string
-	packages.Visit(pkgs, nil, func(p *packages.Package) {
-		for _, e := range p.Errors {
-			errs = append(errs, e.Error())
+	// A harness file lives inside the package it examines and may stop compiling
+	// when internals it touches are renamed or retyped. Such files (and, in the
+	// next rounds, the files that depended on them) are dropped from the overlay
+	// and reported; errors anywhere else are fatal.
+	var pkgs []*packages.Package
+	var dropped []string
+	for round := 0; ; round++ {
+		cfg := &packages.Config{
+			Mode:       packages.LoadAllSyntax,
+			Dir:        repoDir,
+			Overlay:    overlay,
+			BuildFlags: []string{"-tags=verif"},
+			Env:        append(os.Environ(), "GOFLAGS=-mod=mod", "GOPROXY=off", "GOSUMDB=off", "GOTOOLCHAIN=local"),
 		}
-	})
-	if len(errs) > 0 {
-		return nil, fmt.Errorf("load errors:\n%s", strings.Join(errs, "\n"))
+		var err error
+		pkgs, err = packages.Load(cfg, RepoModule, RepoModule+"/quorum", RepoModule+"/tracker", RepoModule+"/confchange", RepoModule+"/raftpb")
+		if err != nil {
+			return nil, err
+		}
+		var errs []string
+		bad := map[string]string{}
+		foreign := false
+		packages.Visit(pkgs, nil, func(p *packages.Package) {
+			for _, e := range p.Errors {
+				errs = append(errs, e.Error())
+				file := e.Pos
+				if i := strings.Index(file, ":"); i >= 0 {
+					file = file[:i]
+				}
+				base := filepath.Base(file)
+				if _, isOverlay := overlay[file]; isOverlay && strings.HasPrefix(base, "zz_vp_") && base != "zz_vp_rt.go" {
+					if _, ok := bad[file]; !ok {
+						bad[file] = e.Error()
+					}
+				} else {
+					foreign = true
+				}
+			}
+		})
+		if len(errs) == 0 {
+			break
+		}
+		if foreign || len(bad) == 0 || round > 12 {
+			return nil, fmt.Errorf("load errors:\n%s", strings.Join(errs, "\n"))
+		}
+		for f, msg := range bad {
+			delete(overlay, f)
+			dropped = append(dropped, filepath.Base(filepath.Dir(f))+"/"+filepath.Base(f)+": "+msg)
+		}
+		// a package left with only the runtime file keeps it (harmless)
 	}
+	sort.Strings(dropped)
 	prog, spkgs := ssautil.AllPackages(pkgs, ssa.InstantiateGenerics)
 	prog.Build()
-	P := &Program{Prog: prog, Fset: prog.Fset, Pkgs: map[string]*ssa.Package{}, RepoDir: repoDir, Overlay: overlay, methCache: map[string]*ssa.Function{}}
+	P := &Program{Prog: prog, Fset: prog.Fset, Pkgs: map[string]*ssa.Package{}, RepoDir: repoDir, Overlay: overlay, methCache: map[string]*ssa.Function{}, DroppedHarnessFiles: dropped}
 	for _, sp := range spkgs {
 		if sp != nil {
 			P.Pkgs[sp.Pkg.Path()] = sp
@@ -134,13 +169,18 @@ type fnMeta struct {
 	interpret bool
 	idx       map[ssa.Value]int
 	nvals     int
+	cov       []uint32 // per basic block: entered by some run (benign races: only ever set to 1)
+	fn        *ssa.Function
 }
 
 func (p *Program) meta(fn *ssa.Function) *fnMeta {
 	if m, ok := p.metas.Load(fn); ok {
 		return m.(*fnMeta)
 	}
-	m := &fnMeta{name: fn.String()}
+	m := &fnMeta{name: fn.String(), fn: fn}
+	if fn.Blocks != nil {
+		m.cov = make([]uint32, len(fn.Blocks))
+	}
 	oname := m.name
 	if fn.Origin() != nil {
 		oname = fn.Origin().String()
@@ -201,4 +241,93 @@ func (p *Program) Harnesses() map[string]*ssa.Function {
 		}
 	}
 	return res
+}
+
+
+// BlockCoverage reports, for every function of the repository's own packages
+// (harness code excluded) that has a body, which basic blocks were entered by
+// any run so far. Functions never called are reported with all blocks missed
+// if the program's SSA has been built for them.
+type FuncCov struct {
+	Name    string
+	Total   int
+	Missed  []string // "file:line" of the first positioned instruction of each block not entered
+	Entered bool
+}
+
+func (p *Program) BlockCoverage() []FuncCov {
+	seen := map[*ssa.Function]bool{}
+	var out []FuncCov
+	add := func(fn *ssa.Function) {
+		if fn == nil || seen[fn] || fn.Blocks == nil {
+			return
+		}
+		seen[fn] = true
+		path := fnPkgPath(fn)
+		if !strings.HasPrefix(path, RepoModule) || strings.HasSuffix(path, "/raftpb") {
+			return
+		}
+		pos := p.Fset.Position(fn.Pos())
+		base := pos.Filename
+		if i := strings.LastIndex(base, "/"); i >= 0 {
+			base = base[i+1:]
+		}
+		if strings.HasPrefix(base, "zz_vp_") || strings.HasPrefix(fn.Name(), "vp") {
+			return
+		}
+		fc := FuncCov{Name: fn.String(), Total: len(fn.Blocks)}
+		var cov []uint32
+		if m, ok := p.metas.Load(fn); ok {
+			cov = m.(*fnMeta).cov
+		}
+		for i, b := range fn.Blocks {
+			if cov != nil && cov[i] != 0 {
+				fc.Entered = true
+				continue
+			}
+			where := "?"
+			for _, ins := range b.Instrs {
+				if ins.Pos().IsValid() {
+					ps := p.Fset.Position(ins.Pos())
+					f := ps.Filename
+					if j := strings.LastIndex(f, "/"); j >= 0 {
+						f = f[j+1:]
+					}
+					where = fmt.Sprintf("%s:%d", f, ps.Line)
+					break
+				}
+			}
+			fc.Missed = append(fc.Missed, fmt.Sprintf("b%d@%s", i, where))
+		}
+		out = append(out, fc)
+	}
+	for _, pkg := range p.Prog.AllPackages() {
+		if pkg.Pkg == nil || !strings.HasPrefix(pkg.Pkg.Path(), RepoModule) {
+			continue
+		}
+		for _, mem := range pkg.Members {
+			switch x := mem.(type) {
+			case *ssa.Function:
+				add(x)
+				for _, an := range x.AnonFuncs {
+					add(an)
+				}
+			case *ssa.Type:
+				for _, t := range []types.Type{x.Type(), types.NewPointer(x.Type())} {
+					ms := p.Prog.MethodSets.MethodSet(t)
+					for i := 0; i < ms.Len(); i++ {
+						fn := p.Prog.MethodValue(ms.At(i))
+						add(fn)
+						if fn != nil {
+							for _, an := range fn.AnonFuncs {
+								add(an)
+							}
+						}
+					}
+				}
+			}
+		}
+	}
+	sort.Slice(out, func(i, j int) bool { return out[i].Name < out[j].Name })
+	return out
 }
